@@ -436,7 +436,13 @@ where
     }
 
     fn decode_eof(&mut self, buf: &mut BytesMut) -> Result<Option<Self::Item>, Self::Error> {
-        let content = read_utf8(buf.as_ref())?;
+        let content = match read_utf8(buf.as_ref()) {
+            Ok(content) => content,
+            Err(e) => {
+                self.reset();
+                return Err(e);
+            }
+        };
         let span = Span::new(content);
         let result = match self.decode_inner(span) {
             Ok((rem, output)) => {
